@@ -1,6 +1,8 @@
 //! Verification harness for essential-base: reference models, spies, generators and the
 //! engines that run the real crates under monitors. See /verif/DESIGN.md.
 
+pub mod codec;
+pub mod formats;
 pub mod model;
 pub mod report;
 pub mod rng;
